@@ -549,9 +549,10 @@ void run_case(Src &s, Ctx &c) {
                         int o2 = (int)sfx.range(0, (long)opn.size() - 1); Args a2 = gen_args(sfx);
                         if (kname == "qlisttbl" && (o2 == 8 || o2 == 17)) continue;
                         Res x1, x2;
-                        int sg = guarded([&] { x1 = t1->run(o2, a2); }, 5);
+                        // the failed call left ENOMEM in errno; later calls must not be confused by it
+                        int sg = guarded([&] { errno = ENOMEM; x1 = t1->run(o2, a2); }, 5);
                         if (sg) { t1 = nullptr; c.fail(CRASH, (std::string("fault:crash-later:") + kname + ":" + opn[(size_t)op]).c_str(), "%s.%s crashed (signal %d) when run after %s.%s had an allocation failure", kname.c_str(), opn[(size_t)o2], sg, kname.c_str(), opn[(size_t)op]); }
-                        x2 = ref->run(o2, a2);
+                        errno = 0; x2 = ref->run(o2, a2);
                         if (x1.failed != x2.failed || x1.obs != x2.obs || t1->snapshot() != ref->snapshot()) c.fail(ATOM, (std::string("fault:later-ops-differ:") + kname + ":" + opn[(size_t)op]).c_str(), "after %s.%s had allocation %ld%s fail (%s), a later %s behaves differently from an undisturbed container", kname.c_str(), opn[(size_t)op], kk, sticky ? "+" : "", r1.failed ? "reported" : "survived", opn[(size_t)o2]);
                     }
                 }
